@@ -211,6 +211,20 @@ theorem bad_token_fails_params (c : SelCodec σ) (scanOf : (Bytes → Option Byt
     whichPage c scanOf raw = .error (.token e) := by
   simp [whichPage, ht, he]
 
+/-- The blank token - the zero-length truncation of every issued token - is valid base64 (of
+nothing) but not JSON: it is refused, for every selector type. -/
+theorem blank_token_refused {σ : Type} (c : SelCodec σ) :
+    deserializeToken c [] = .error (.corrupted .json) :=
+  not_json_refused c [] [] (by decide) (by decide) (by decide)
+
+/-- … so a query carrying `page_token=` (present but empty) fails as a whole; it never
+starts a new scan from the other parameters. -/
+theorem blank_token_fails_params {σ scan : Type} (c : SelCodec σ)
+    (scanOf : (Bytes → Option Bytes) → Option scan) (raw : List (Bytes × Bytes))
+    (ht : lastValue raw kPageToken = some []) :
+    whichPage c scanOf raw = .error (.token (.corrupted .json)) :=
+  bad_token_fails_params c scanOf raw [] _ ht (blank_token_refused c)
+
 /-! ### A token alone determines the page -/
 
 /-- **C14 (token alone decides).**  When `page_token` is present, the page is
